@@ -20,7 +20,7 @@ RULE = ('scripted models over span types {range, list / tuple of str, NumPy int 
         '(so reversed, equal, boundary and unknown pairs are all present) x a fault (exception in a pass, exception in the pre-hook, '
         'NaN, +inf, non-convergence, warning) at each position in turn (thorough tier: every kind at every position up to length 3) x errors / failures / catch_first_error / min_iter / max_iter / '
         'offset / tol sampled; offsets -2..2 over whole spans and ranges touching either end (IndexError containment); lags and leads 0..2 incl. spans too short for them and explicit starts before the first feasible period; '
-        'histories of 2..7 steps on ONE instance (solve_t / solve_period / solve with their own options and offsets, copy(), reindex(same span), whole-series list and direct cell assignments incl. NaN; re-solved periods) compared step by step with single-period calls on a twin; solve_period(label) for every label spec; iter_periods(start, end) itself for every pair (pairs and len() compared); parser-built models (recursive, simultaneous, lagged and leading equations, 1/X[-1], '
+        'histories of 2..7 steps on ONE instance (solve_t / solve_period / solve with their own options and offsets, copy(), reindex(same span), whole-series list and direct cell assignments incl. NaN; re-solved periods) compared step by step with single-period calls on a twin; solve_period(label) for every label spec; iter_periods(start, end) itself for every pair (pairs and len() compared) and the protocol of the object it returns (next, next, list, list, len); parser-built models (recursive, simultaneous, lagged and leading equations, 1/X[-1], '
         'log) whose class-level LAGS / LEADS come from the real parser, the recorded per-pass columns being the model\'s script. Each case runs solve() (or solve_period) and, on a twin instance, the plain loop of '
         'solve_t over the positions the statement names. Non-trivial = at least two periods visited, or a fault / label error / '
         'infeasible period was met; distinct by hash of the whole case.')
@@ -102,7 +102,7 @@ def build(rng, span_type, n, start, end, entry='solve', fault=None, lags=0, lead
         scripts[str(p)] = faulty_script(rng, p, kind)
     c['scripts'] = scripts
     c['opts'] = sc.random_omit(rng, c['opts'], 0.12)             # some calls leave keywords to their defaults
-    if rng.random() < 0.08 and n and entry not in ('iter_periods', 'iter_next'):
+    if rng.random() < 0.08 and n and entry not in ('iter_periods', 'iter_next', 'iter_protocol'):
         # an extra keyword argument that _evaluate uses: solve() / solve_period() must hand **kwargs down (and on to iter_periods)
         q = rng.randrange(n)
         a = scripts[str(q)]['passes'][0][0]
@@ -175,6 +175,8 @@ def gen(rng, tier):
             # next(iter_periods(...)): the iterator protocol of the returned object
             if n:
                 cases.append(build(rng, st, n, rng.choice(sp), rng.choice(sp), entry='iter_next'))
+                cases.append(build(rng, st, n, rng.choice(sp), rng.choice(sp), entry='iter_protocol'))
+                cases.append(build(rng, st, n, None, None, entry='iter_protocol'))
             # solve_period for every label spec
             for a in sp[1:]:
                 cases.append(build(rng, st, n, a, None, entry='solve_period'))
@@ -301,12 +303,30 @@ def _oracle(case, obs):
             bad('locate|%s' % case['span_type'], 'the label of period %d of a %s span must resolve to the single position %d; '
                 'the lookup gave %s' % (i, case['span_type'], i, got))
             break
-    if o['min_iter'] > o['max_iter'] and case['entry'] not in ('iter_periods', 'iter_next'):
+    if o['min_iter'] > o['max_iter'] and case['entry'] not in ('iter_periods', 'iter_next', 'iter_protocol'):
         if out[:2] != ['raise', 'ValueError'] or not unchanged:
             bad('min_iter>max_iter', 'min_iter > max_iter must raise ValueError before anything changes; got %s, unchanged=%s' % (out[:3], unchanged))
         return fails
+    if case['entry'] == 'iter_protocol':
+        # a = next(pi); b = next(pi); list(pi); list(pi); len(pi): next() walks through the pairs in span order, iterating the object
+        # yields every pair of the range again (repeatably), len() is the number of periods
+        if exp[0] == 'range':
+            a, b = exp[1], exp[2]
+            positions = list(range(a, b + 1))
+            if len(positions) >= 2:
+                wantpos = positions[:2] + positions + positions
+                want = ['ret', [obs['ids'][q] for q in wantpos], wantpos]
+                if out[:3] != want or out[5] != len(positions):
+                    bad('iter_periods|protocol', 'next / next / list / list / len on iter_periods(start=%r, end=%r) (%s span, %d periods) must give '
+                        'positions %s and length %d; got %s' % (case['start'], case['end'], case['span_type'], n, wantpos, len(positions), out))
+            elif out[:2] != ['raise', 'StopIteration']:
+                bad('iter_periods|protocol', 'a range of %d period(s) must run out (StopIteration) at the %s next(); got %s'
+                    % (len(positions), 'first' if not positions else 'second', out[:3]))
+        return fails
     if case['entry'] == 'iter_next':
         # next(iter_periods(start, end)): the first period of the range comes first
+        if exp[0] == 'range' and exp[1] > exp[2] and out[:2] != ['raise', 'StopIteration']:
+            bad('iter_periods|next-on-empty-range', 'next() on an empty range must raise StopIteration; got %s' % (out[:3],))
         if exp[0] == 'range' and exp[1] <= exp[2]:
             want = ['ret', [obs['ids'][exp[1]]], [exp[1]]]
             if out[:3] != want:
@@ -337,7 +357,7 @@ def _oracle(case, obs):
                     % (sorted(case['kwargs']), seen))
                 break
     what_call = 'solve_period(%r)' % (case['start'],) if case['entry'] == 'solve_period' else 'solve(start=%r, end=%r)' % (case['start'], case['end'])
-    if exp[0] == 'keyerror' and case['entry'] not in ('iter_periods', 'iter_next'):
+    if exp[0] == 'keyerror' and case['entry'] not in ('iter_periods', 'iter_next', 'iter_protocol'):
         if out[:2] != ['raise', 'KeyError'] or not unchanged:
             bad('bad-label', '%s on a %s span: an unknown / non-single label must raise KeyError before anything is solved; got %s, unchanged=%s'
                 % (what_call, case['span_type'], out[:3], unchanged))
@@ -387,7 +407,7 @@ def _oracle(case, obs):
 def nontrivial(case, obs):
     if case.get('kind') == 'hist':
         return len(set(obs['status'])) >= 2 or any(o[0] == 'raise' for o in obs['outs'])
-    if view(case, obs)['entry'] in ('iter_periods', 'iter_next'):
+    if view(case, obs)['entry'] in ('iter_periods', 'iter_next', 'iter_protocol'):
         return obs['out'][0] == 'raise' or len(obs['out'][1]) >= 2
     visited = {e[1] for e in obs['log']}
     return len(visited) >= 2 or obs['out'][0] == 'raise' or any(s in ('F', 'E', 'S') for s in obs['status'])
